@@ -17,7 +17,8 @@ theorem structure_C03 : Extracted.readLoopShape = true ∧ Extracted.cleanupNeed
 theorem structure_C05 :
     Extracted.timestampBeforeContext = true ∧ Extracted.refreshAfterSample = true ∧
     Extracted.refreshAlsoBeforeSampleInPoll = false ∧ Extracted.stopsOnFutureTimestamp = true ∧
-    Extracted.strictMinimum = true ∧ Extracted.batchGuardInPoll = true ∧ Extracted.batchGuardInExit = true := by decide
+    Extracted.strictMinimum = true ∧ Extracted.batchGuardInPoll = true ∧ Extracted.batchGuardInExit = true ∧
+    Extracted.unboundedReadFollowsEmptyBuffers = true := by decide
 
 /-- C06: the event is popped before the flag is raised; the flush request is retried; every sink is flushed in its own
     try/catch -/
